@@ -121,26 +121,23 @@ theorem stageExtensions_err {hs : List Hdr} {o : SrvOut} (h : stageExtensions hs
 theorem stageMax_err {cfg : SrvCfg} {env : SrvEnv} {o : SrvOut} (h : stageMax cfg env = .error o) : IsFail o := by
   unfold stageMax at h; stage_err h
 
-/-- the web-status branch is the only place where the chain can end otherwise than in an HTTP error:
-status page, redirect, or an exception out of `hyperlink` / `int` -/
+/-- the web-status branch is the only place where the chain can end otherwise than in an HTTP error: status page or
+redirect (a malformed `redirect` / `after` parameter is an HTTP 400 since fix cb4d1ff0) -/
 theorem stageUpgrade_err {cfg : SrvCfg} {env : SrvEnv} {hs : List Hdr} {o : SrvOut}
     (h : stageUpgrade cfg env hs = .error o) :
     IsFail o ∨ (cfg.webStatus = true ∧ hget hs b!"upgrade" = none ∧
-      ((∃ r, o = .statusPage r) ∨ (∃ u, o = .redirect303 u) ∨
-       (∃ c, o = .escapes c ∧ (env.redirect = .bad c ∨ ∃ u, env.redirect = .url u .bad ∧ c = .valueError)))) := by
+      ((∃ r, o = .statusPage r) ∨ (∃ u, o = .redirect303 u))) := by
   unfold stageUpgrade bad at h
   split at h
   · next hnone =>
     split at h
     · next hws =>
-      right
-      refine ⟨hws, hnone, ?_⟩
       split at h <;> cases h
-      · exact .inl ⟨_, rfl⟩
-      · next c hc => exact .inr (.inr ⟨c, rfl, .inl hc⟩)
-      · exact .inr (.inl ⟨_, rfl⟩)
-      · next u hu => exact .inr (.inr ⟨_, rfl, .inr ⟨u, hu, rfl⟩⟩)
-      · exact .inl ⟨_, rfl⟩
+      · exact .inr ⟨hws, hnone, .inl ⟨_, rfl⟩⟩
+      · exact .inl ⟨_, _, rfl⟩
+      · exact .inr ⟨hws, hnone, .inr ⟨_, rfl⟩⟩
+      · exact .inl ⟨_, _, rfl⟩
+      · exact .inr ⟨hws, hnone, .inl ⟨_, rfl⟩⟩
     · cases h; exact .inl ⟨_, _, rfl⟩
   · split at h
     · cases h
@@ -150,8 +147,7 @@ theorem stageUpgrade_err {cfg : SrvCfg} {env : SrvEnv} {hs : List Hdr} {o : SrvO
 theorem validate_error {cfg : SrvCfg} {env : SrvEnv} {line : Bytes} {hs : List Hdr} {o : SrvOut}
     (h : validate cfg env line hs = .error o) :
     IsFail o ∨ (cfg.webStatus = true ∧ hget hs b!"upgrade" = none ∧
-      ((∃ r, o = .statusPage r) ∨ (∃ u, o = .redirect303 u) ∨
-       (∃ c, o = .escapes c ∧ (env.redirect = .bad c ∨ ∃ u, env.redirect = .url u .bad ∧ c = .valueError)))) := by
+      ((∃ r, o = .statusPage r) ∨ (∃ u, o = .redirect303 u))) := by
   unfold validate at h
   simp only [bind_error] at h
   rcases h with h | ⟨_, _, h⟩
@@ -185,11 +181,10 @@ theorem isFail_not_opened {o : SrvOut} (h : IsFail o) : o.isOpened = false := by
 
 theorem validate_error_not_opened {cfg : SrvCfg} {env : SrvEnv} {line : Bytes} {hs : List Hdr} {o : SrvOut}
     (h : validate cfg env line hs = .error o) : o.isOpened = false := by
-  rcases validate_error h with h | ⟨_, _, h | h | h⟩
+  rcases validate_error h with h | ⟨_, _, h | h⟩
   · exact isFail_not_opened h
   · obtain ⟨r, rfl⟩ := h; rfl
   · obtain ⟨r, rfl⟩ := h; rfl
-  · obtain ⟨r, rfl, _⟩ := h; rfl
 
 theorem succeed_opened_iff (cfg : SrvCfg) (v : Validated) (proto : Option Bytes) (uh : List (Bytes × Bytes))
     (rest : Bytes) :
@@ -365,13 +360,9 @@ theorem cvalidate_error {cfg : CliCfg} {key line : Bytes} {hs : List Hdr} {o : C
   · exact cstageProtocol_err h
   · simp [pure, Except.pure] at h
 
-/-- the header block is valid UTF-8 (the inputs on which the eager `.decode("utf8")` of the log call does not raise) -/
-def HeadUtf8 (data : Bytes) : Prop :=
-  ∀ eoh, find crlfcrlf data = some eoh → utf8Valid (data.take (eoh + 4)) = true
-
 theorem client_opened_iff (cfg : CliCfg) (key data : Bytes) :
     (client cfg key data).isOpened = true ↔
-      ∃ eoh line hs r, find crlfcrlf data = some eoh ∧ utf8Valid (data.take (eoh + 4)) = true ∧
+      ∃ eoh line hs r, find crlfcrlf data = some eoh ∧
         parseHttpHeader (data.take (eoh + 4)) = some (line, hs) ∧ cvalidate cfg key line hs = .ok r := by
   constructor
   · intro h
@@ -380,35 +371,31 @@ theorem client_opened_iff (cfg : CliCfg) (key data : Bytes) :
     | none => simp [hf, CliOut.isOpened] at h
     | some eoh =>
       simp only [hf] at h
-      cases hu : utf8Valid (data.take (eoh + 4)) with
-      | false => simp [hu, CliOut.isOpened] at h
-      | true =>
-        simp only [hu, Bool.not_true, Bool.false_eq_true, if_false] at h
-        cases hp : parseHttpHeader (data.take (eoh + 4)) with
-        | none => simp [hp, CliOut.isOpened] at h
-        | some lh =>
-          obtain ⟨line, hs⟩ := lh
-          simp only [hp] at h
-          cases hv : cvalidate cfg key line hs with
-          | error o =>
-            rw [hv, cvalidate_error hv] at h
-            simp [CliOut.isOpened] at h
-          | ok r => exact ⟨eoh, line, hs, r, rfl, hu, hp, hv⟩
-  · rintro ⟨eoh, line, hs, r, hf, hu, hp, hv⟩
+      cases hp : parseHttpHeader (data.take (eoh + 4)) with
+      | none => simp [hp, CliOut.isOpened] at h
+      | some lh =>
+        obtain ⟨line, hs⟩ := lh
+        simp only [hp] at h
+        cases hv : cvalidate cfg key line hs with
+        | error o =>
+          rw [hv, cvalidate_error hv] at h
+          simp [CliOut.isOpened] at h
+        | ok r => exact ⟨eoh, line, hs, r, rfl, hp, hv⟩
+  · rintro ⟨eoh, line, hs, r, hf, hp, hv⟩
     unfold client
-    simp [hf, hu, hp, hv, CliOut.isOpened]
+    simp [hf, hp, hv, CliOut.isOpened]
 
-/-- **client_opens_iff_valid** (partial: for header blocks that are valid UTF-8 [F4], whose status code, when `int()` reads
-101 from it, is the literal `101`, and for clients whose request announced `factory.protocols` [no `onConnecting`
-override] — the excluded inputs are shown as `example`s below).  The client model completes the handshake exactly when the
-header block is complete and satisfies `ValidResponse` for the key this client sent. -/
+/-- **client_opens_iff_valid** (partial: for header blocks whose status code, when `int()` reads 101 from it, is the
+literal `101`, and for clients whose request announced `factory.protocols` [no `onConnecting` override] — the excluded
+inputs are shown as `example`s below; non-UTF-8 header blocks are no longer excluded, fix 96829a53).  The client model
+completes the handshake exactly when the header block is complete and satisfies `ValidResponse` for the key it sent. -/
 theorem client_opens_iff_valid_partial (cfg : CliCfg) (key data : Bytes)
-    (hproto : cfg.factoryProtocols = cfg.protocols) (hutf : HeadUtf8 data)
+    (hproto : cfg.factoryProtocols = cfg.protocols)
     (hstrict : ∀ line hs, ParsedHead data line hs → StrictStatus line) :
     (client cfg key data).isOpened = true ↔ ∃ line hs, ParsedHead data line hs ∧ ValidResponse cfg key line hs := by
   rw [client_opened_iff]
   constructor
-  · rintro ⟨eoh, line, hs, r, hfind, _, hparse, hv⟩
+  · rintro ⟨eoh, line, hs, r, hfind, hparse, hv⟩
     have wf := parse_wf hparse
     have strict := hstrict line hs ⟨eoh, hfind, hparse⟩
     obtain ⟨h1, h2, h3, h4, h5, h6⟩ := (cvalidate_ok _ _ _ _ _).1 hv
@@ -434,7 +421,7 @@ theorem client_opens_iff_valid_partial (cfg : CliCfg) (key data : Bytes)
     | none => rw [hl] at hext; cases hext
     | some l =>
       let sp := strip (value hs b!"sec-websocket-protocol")
-      refine ⟨eoh, line, hs, (if sp = [] then none else some sp, l), hfind, hutf eoh hfind, hparse, ?_⟩
+      refine ⟨eoh, line, hs, (if sp = [] then none else some sp, l), hfind, hparse, ?_⟩
       apply (cvalidate_ok _ _ _ _ _).2
       refine ⟨(cstageStatus_ok strict).2 hvalid.status, (cstageUpgrade_ok wf).2 hvalid.upgrade,
         (cstageConnection_ok wf).2 hvalid.connection, (cstageAccept_ok wf key).2 hvalid.accept,
@@ -542,18 +529,15 @@ theorem client_append_done {cfg : CliCfg} {key d : Bytes} {i : Nat} (h : find cr
   split
   · rfl
   · split
+    · next o ho => rw [cvalidate_error ho]; rfl
     · rfl
-    · split
-      · next o ho => rw [cvalidate_error ho]; rfl
-      · rfl
 
 theorem validate_error_not_incomplete {cfg : SrvCfg} {env : SrvEnv} {line : Bytes} {hs : List Hdr} {o : SrvOut}
     (h : validate cfg env line hs = .error o) : o.isIncomplete = false := by
-  rcases validate_error h with h | ⟨_, _, h | h | h⟩
+  rcases validate_error h with h | ⟨_, _, h | h⟩
   · obtain ⟨c, e, rfl⟩ := h; rfl
   · obtain ⟨r, rfl⟩ := h; rfl
   · obtain ⟨r, rfl⟩ := h; rfl
-  · obtain ⟨r, rfl, _⟩ := h; rfl
 
 theorem succeed_not_incomplete (cfg : SrvCfg) (v : Validated) (proto : Option Bytes) (uh : List (Bytes × Bytes))
     (r : Bytes) : (succeed cfg v proto uh r).isIncomplete = false := by
@@ -588,10 +572,8 @@ theorem client_incomplete_iff (cfg : CliCfg) (key d : Bytes) :
     split
     · rfl
     · split
+      · next o ho => rw [cvalidate_error ho]; rfl
       · rfl
-      · split
-        · next o ho => rw [cvalidate_error ho]; rfl
-        · rfl
 
 theorem feedAll_done {α : Type} (judge : Bytes → α) (inc : α → Bool) (o : α) (cs : List Bytes) :
     feedAllWith judge inc (.done o) cs = .done o := by
@@ -669,19 +651,13 @@ theorem segmentation_independent_client (cfg : CliCfg) (key : Bytes) (cs : List 
 
 /-! ### never escapes -/
 
-/-- the web-status query does not make `hyperlink` or `int` raise -/
-def RedirectBenign : Redirect → Prop
-  | .bad _ => False
-  | .url _ .bad => False
-  | _ => True
-
 theorem isFail_not_escape {o : SrvOut} (h : IsFail o) : o.isEscape = false := by
   obtain ⟨c, e, rfl⟩ := h; rfl
 
-/-- **never_escapes** (server, partial: outside the web-status redirect branch [F5] — `webStatus` off, or a query whose
-`redirect` / `after` parameters the libraries accept).  For every byte string no exception leaves `processHandshake`. -/
-theorem server_never_escapes_partial (cfg : SrvCfg) (env : SrvEnv)
-    (hq : cfg.webStatus = false ∨ RedirectBenign env.redirect) (data : Bytes) :
+/-- **server_never_escapes** (full, since fix cb4d1ff0): for every configuration, environment — whatever `parse_qs`,
+`hyperlink`, `int`, `ipaddress` and the user's `onConnect` do — and every byte string, no exception leaves
+`processHandshake`. -/
+theorem server_never_escapes (cfg : SrvCfg) (env : SrvEnv) (data : Bytes) :
     (server cfg env data).isEscape = false := by
   unfold server
   split
@@ -690,17 +666,10 @@ theorem server_never_escapes_partial (cfg : SrvCfg) (env : SrvEnv)
     · rfl
     · split
       · next o ho =>
-        rcases validate_error ho with h | ⟨hws, _, h | h | h⟩
+        rcases validate_error ho with h | ⟨_, _, h | h⟩
         · exact isFail_not_escape h
         · obtain ⟨r, rfl⟩ := h; rfl
         · obtain ⟨r, rfl⟩ := h; rfl
-        · obtain ⟨c, rfl, hr | ⟨u, hr, _⟩⟩ := h
-          · rcases hq with hq | hq
-            · rw [hq] at hws; cases hws
-            · rw [hr] at hq; exact absurd hq (by simp [RedirectBenign])
-          · rcases hq with hq | hq
-            · rw [hq] at hws; cases hws
-            · rw [hr] at hq; exact absurd hq (by simp [RedirectBenign])
       · split
         · rfl
         · rfl
@@ -724,14 +693,13 @@ theorem feed_result_cases {α : Type} (judge : Bytes → α) (inc : α → Bool)
       rw [this]
       exact ⟨d ++ c, rfl⟩
 
-/-- … and therefore none leaves `dataReceived`, however the octets are segmented -/
-theorem serverFeed_never_escapes_partial (cfg : SrvCfg) (env : SrvEnv)
-    (hq : cfg.webStatus = false ∨ RedirectBenign env.redirect) (cs : List Bytes) :
+/-- … and therefore none leaves `dataReceived`, however the octets are segmented (full) -/
+theorem serverFeed_never_escapes (cfg : SrvCfg) (env : SrvEnv) (cs : List Bytes) :
     (serverFeed cfg env cs).isEscape = false := by
   unfold serverFeed
   rcases feed_result_cases (server cfg env) SrvOut.isIncomplete .incomplete [] cs with h | ⟨d, h⟩
   · rw [h]; rfl
-  · rw [h]; exact server_never_escapes_partial cfg env hq d
+  · rw [h]; exact server_never_escapes cfg env d
 
 /-- a complete header block always has a first line: `raw[0]` in `parseHttpHeader` cannot raise -/
 theorem parse_head_some {data : Bytes} {i : Nat} (h : find crlfcrlf data = some i) :
@@ -752,42 +720,34 @@ theorem parse_head_some {data : Bytes} {i : Nat} (h : find crlfcrlf data = some 
   · next hnil => exact absurd hnil this
   · simp
 
-/-- **never_escapes** (client, partial: for header blocks that are valid UTF-8 — the excluded class is F4). -/
-theorem client_never_escapes_partial (cfg : CliCfg) (key data : Bytes) (hutf : HeadUtf8 data) :
-    (client cfg key data).isEscape = false := by
+/-- **client_never_escapes** (full, since fix 96829a53): for every configuration, key and byte string — valid UTF-8 or
+not — no exception leaves the client's `processHandshake` (the only raising operation left in the model, `raw[0]`, is
+unreachable: `parse_head_some`). -/
+theorem client_never_escapes (cfg : CliCfg) (key data : Bytes) : (client cfg key data).isEscape = false := by
   unfold client
   split
   · rfl
   · next eoh hf =>
-    simp only [hutf eoh hf, Bool.not_true, Bool.false_eq_true, if_false]
+    simp only
     split
     · next hp => exact absurd hp (parse_head_some hf)
     · split
       · next o ho => rw [cvalidate_error ho]; rfl
       · rfl
 
-theorem CliOut.isEscape_dropRest (o : CliOut) : o.dropRest.isEscape = o.isEscape := by cases o <;> rfl
-
-theorem clientFeed_never_escapes_partial (cfg : CliCfg) (key : Bytes) (cs : List Bytes) (hutf : HeadUtf8 cs.flatten) :
+theorem clientFeed_never_escapes (cfg : CliCfg) (key : Bytes) (cs : List Bytes) :
     (clientFeed cfg key cs).isEscape = false := by
-  rw [← CliOut.isEscape_dropRest, segmentation_independent_client, CliOut.isEscape_dropRest]
-  exact client_never_escapes_partial cfg key _ hutf
+  unfold clientFeed
+  rcases feed_result_cases (client cfg key) CliOut.isIncomplete .incomplete [] cs with h | ⟨d, h⟩
+  · rw [h]; rfl
+  · rw [h]; exact client_never_escapes cfg key d
 
-/-- the full statement `∀ cfg env data, (server cfg env data).isEscape = false` is FALSE today — F5: -/
-example : (server {} { redirect := .url b!"http://x.y/" .bad }
-    b!"GET /?redirect=http%3A%2F%2Fx.y&after=abc HTTP/1.1\r\nHost: a\r\n\r\n").isEscape = true := by decide
-example : (server {} { redirect := .bad .urlParseError }
-    b!"GET /?redirect=http%3A%2F%2F[ HTTP/1.1\r\nHost: a\r\n\r\n").isEscape = true := by decide
-/-- … and `∀ cfg key data, (client cfg key data).isEscape = false` is FALSE today — F4: -/
-example : (client {} b!"AAAAAAAAAAAAAAAAAAAAAA==" (b!"HTTP/1.1 101 " ++ [0xff] ++ crlfcrlf)).isEscape = true := by decide
-/-- the hypotheses of the partial forms are satisfiable on non-trivial inputs -/
-example : RedirectBenign (.url b!"http://x.y/" (.val 3)) := by simp [RedirectBenign]
-example : HeadUtf8 b!"HTTP/1.1 101 X\r\n\r\n" := by
-  intro eoh h
-  have : eoh = 14 := by
-    have : find crlfcrlf b!"HTTP/1.1 101 X\r\n\r\n" = some 14 := by decide
-    rw [this] at h; cases h; rfl
-  subst this; decide
+/-- the inputs that used to escape (F5a, F5b, F4) now end in an HTTP 400 + drop, resp. a dropped connection -/
+example : server {} { redirect := .url b!"http://x.y/" .bad }
+    b!"GET /?redirect=http%3A%2F%2Fx.y&after=abc HTTP/1.1\r\nHost: a\r\n\r\n" = .fail 400 [] := by decide
+example : server {} { redirect := .bad .urlParseError }
+    b!"GET /?redirect=http%3A%2F%2F[ HTTP/1.1\r\nHost: a\r\n\r\n" = .fail 400 [] := by decide
+example : client {} b!"AAAAAAAAAAAAAAAAAAAAAA==" (b!"HTTP/1.1 101 " ++ [0xff] ++ crlfcrlf) = .fail := by decide
 
 /-! ### the 101 reply -/
 
